@@ -185,7 +185,7 @@ def NonTag (toks : List Token) : Prop := ∀ k ∈ toks, k.tt ≠ .start ∧ k.t
 /-- where a written token comes from: the added space, the input token itself (a text, an end
     tag, an allowed comment), or the input tag with its cleaned attribute list -/
 def Prov (p : Policy) (t k : Token) : Prop :=
-  k = ⟨.text, [32], []⟩ ∨
+  (k = ⟨.text, [32], []⟩ ∧ p.addSpaces = true) ∨
   (k = t ∧ (t.tt = .text ∨ t.tt = .end_ ∨ (t.tt = .comment ∧ p.allowComments = true))) ∨
   (∃ aps attrs, p.attrRulesFor t.data = some aps ∧ p.cleanAttrs t aps = some attrs ∧
     k = { t with attrs := attrs } ∧ (t.tt = .start ∨ t.tt = .selfClosing))
@@ -206,7 +206,7 @@ theorem tokWrites_space (p : Policy) (t : Token) :
     ∃ toks, TokWrites p t p.space toks ∧ NonTag toks := by
   unfold Policy.space
   split
-  · exact ⟨[⟨.text, [32], []⟩], ⟨by unfold TokBytes; decide, by intro k hk; simp at hk; subst hk; exact .inl rfl⟩,
+  · exact ⟨[⟨.text, [32], []⟩], ⟨by unfold TokBytes; decide, by intro k hk; simp at hk; subst hk; exact .inl ⟨rfl, by assumption⟩⟩,
       by intro k hk; simp at hk; subst hk; exact ⟨by decide, by decide⟩⟩
   · exact ⟨[], tokWrites_nil p t, by intro k hk; simp at hk⟩
 
